@@ -180,6 +180,25 @@ def run_check(prop, tier, only=None, jobs=14, show=None):
         out_lines.append(line)
         nviol += 1
         rc = 1
+    # the deductive check is undecided (lowering/model gap, reshaped code, timeout) and reported no violation: the property's native
+    # replay search still runs on the real code; a failing input it finds IS a violation (a real input on the real code), its silence
+    # decides nothing
+    if undecided and rc == 0 and os.path.exists(os.path.join(VERIF, 'replay', prop + '.py')):
+        d = os.path.join(engine.BUILD, 'replay', prop); os.makedirs(d, exist_ok=True)
+        path = os.path.join(d, 'undecided.search.json')
+        rec = {'property': prop, 'statement': PROPS.get(prop, {}).get('statement'), 'undecided': [{'unit': n, 'reason': w[:400]} for n, w in undecided],
+               'note': 'the contract proof could not be completed on this tree (see undecided); this failing input was found by the native replay search on the real code'}
+        try:
+            spec = importlib.util.spec_from_file_location('replay_' + prop, os.path.join(VERIF, 'replay', prop + '.py'))
+            mod = importlib.util.module_from_spec(spec); spec.loader.exec_module(mod)
+            reproduced, text = mod.replay(rec, os.path.join(d, 'native'))
+        except Exception as e:
+            reproduced, text = False, 'replay driver failed: %r' % e
+        rec['native_replay'] = {'reproduced': reproduced, 'output': text}
+        if reproduced:
+            json.dump(rec, open(path, 'w'), indent=1)
+            out_lines.append('VIOLATION property=%s replay=%s' % (prop, path))
+            nviol += 1; rc = 1
     for name, why in undecided:
         out_lines.append('UNDECIDED property=%s unit=%s reason=%s' % (prop, name, why.replace('\n', ' ')[:600]))
     if undecided and rc == 0: rc = 2
